@@ -172,6 +172,17 @@ type Mixed struct {
 	Q PName       `serix:""`
 }
 
+// JDeep: maps whose elements are themselves collections or structs with collections (state must not leak between the
+// entries when the JSON form is decoded), and an omitempty pointer whose pointee may be all zero.
+type U16s []uint16
+
+type JDeep struct {
+	MSl  map[Name]U16s `serix:",lenPrefix=uint8"`
+	MMp  map[Name]Dict `serix:",lenPrefix=uint8"`
+	MSt  map[Name]Poly `serix:",lenPrefix=uint8"`
+	OptZ *Rect         `serix:",omitempty"`
+}
+
 type Trio struct {
 	Arr [3]uint16 `serix:",lenPrefix=uint8"`
 }
@@ -373,6 +384,8 @@ var (
 
 	nIdent = st("Ident", -1, 0, f("ID", nID4), opt("PID", ptr(nID4)))
 	nMixed = st("Mixed", -1, 0, f("S", sl(nU16, 1, 0, 4)), f("M", mp(nU16, nU16, 1, 0, 4)), f("P", str(1, 0, 0)), f("Q", str(2, 0, 0)))
+	nJDeep = st("JDeep", -1, 0, f("MSl", mp(nName, sl(nU16, 1, 0, 0), 1, 0, 0)), f("MMp", mp(nName, nDict, 1, 0, 0)),
+		f("MSt", mp(nName, nPoly, 1, 0, 0)), f("OptZ", ptr(nRect)))
 	nTrio  = st("Trio", -1, 0, f("Arr", &node{kind: kArray, name: "array", n: 3, elem: nU16, prefix: 1, code: -1}))
 
 	nCustom = &node{kind: kCustom, name: "Custom", code: 0x33, codeW: 1}
@@ -416,6 +429,7 @@ var zoo = []*entry{
 	{name: "root", n: nRoot, rt: reflect.TypeOf(Root{})},
 	{name: "trio", n: nTrio, rt: reflect.TypeOf(Trio{}), json: true},
 	{name: "mixed", n: nMixed, rt: reflect.TypeOf(Mixed{})},
+	{name: "jdeep", n: nJDeep, rt: reflect.TypeOf(JDeep{}), json: true},
 }
 
 func entryByName(name string) *entry {
@@ -468,6 +482,7 @@ func newAPI() *serix.API {
 		ValidationMode: serializer.ArrayValidationModeNoDuplicates,
 	})))
 	must(a.RegisterTypeSettings(Dict{}, ts.WithLengthPrefixType(serix.LengthPrefixTypeAsUint16)))
+	must(a.RegisterTypeSettings(U16s{}, ts.WithLengthPrefixType(serix.LengthPrefixTypeAsByte)))
 	sharedBase := ts.WithLengthPrefixType(serix.LengthPrefixTypeAsByte).WithMaxLen(4)
 	must(a.RegisterTypeSettings(SharedSlice{}, sharedBase))
 	must(a.RegisterTypeSettings(SharedMap{}, sharedBase))
